@@ -1,4 +1,715 @@
 package main
 
-func restScenC18(d *restDriver, c *ctx) {}
-func restScenC19(d *restDriver, c *ctx) {}
+import (
+	"fmt"
+	"sort"
+	"strings"
+	"sync"
+	"time"
+
+	"github.com/ja7ad/otp"
+)
+
+// ---- request builders: abstract scenario -> typed request + oracle entries + hints ----
+
+type job struct {
+	scn, method, path, query, cls string
+	probe                         bool
+	q                             RReq
+	raw                           []byte
+	fill                          func(ev *restEvent) // adds oracle entries / hints after the exchange
+}
+
+func (d *restDriver) do(c *client, j job) restEvent {
+	ev := d.send(c, j.scn, j.method, j.path, j.query, j.cls, j.probe, j.q, j.raw)
+	if j.fill != nil {
+		j.fill(&ev)
+	}
+	if strings.HasPrefix(j.path, "/totp/") && uint64FromB(ev.Step0) == 0 && uint64FromB(ev.Step1) == 0 && !j.q.Timestamp.P {
+		// server-clock request without a prepared hint: default period
+		eff := uint64(30)
+		if j.q.Period.P && uint64FromB(j.q.Period.W) != 0 {
+			eff = uint64FromB(j.q.Period.W)
+		}
+		ev.Step0, ev.Step1 = W64(uint64FromB(ev.T0)/eff), W64(uint64FromB(ev.T1)/eff)
+	}
+	d.record(ev)
+	return ev
+}
+
+var digitSpellings = []string{"6", "8", "9", "10", "", "7", "06", "ten", " 8"}
+var algSpellings = []string{"SHA1", "SHA256", "SHA512", "", "sha1", "sha256", "SHA-256", "MD5", "SHA384"}
+
+func allAlgWindow(key []byte, c uint64, w int) []Mac {
+	var o orcSet
+	for a := 0; a < 3; a++ {
+		o.counterWindow(a, key, c, w)
+	}
+	return o.entries()
+}
+
+func (c *ctx) restSecret(key []byte) string {
+	s := c.someSpelling(key)
+	if c.rng.Intn(4) == 0 {
+		s = " " + s + "\n"
+	}
+	return s
+}
+
+func trimKey(secret string) ([]byte, bool) { return lenientKey(strings.TrimSpace(secret)) }
+
+func (d *restDriver) jobHOTPGen(c *ctx, tag string, probe bool) job {
+	key := c.someKey()
+	if len(key) == 0 {
+		key = c.randBytes(10)
+	}
+	q := newRReq()
+	sec := c.restSecret(key)
+	q.Secret = rfStr(sec)
+	ctr := c.someCounter()
+	if c.rng.Intn(5) == 0 {
+		ctr = 0
+	}
+	if c.rng.Intn(6) != 0 {
+		q.Counter = rfNum(ctr)
+	} else {
+		ctr = 0
+	}
+	if c.rng.Intn(3) != 0 {
+		q.Digits = rfStr(digitSpellings[c.rng.Intn(len(digitSpellings))])
+	}
+	if c.rng.Intn(3) != 0 {
+		q.Algorithm = rfStr(algSpellings[c.rng.Intn(len(algSpellings))])
+	}
+	return job{scn: tag, method: "POST", path: "/hotp/generate", cls: "typed", probe: probe, q: q, fill: func(ev *restEvent) {
+		if k, ok := trimKey(sec); ok {
+			ev.Orc = allAlgWindow(k, ctr, 0)
+		}
+	}}
+}
+
+func (d *restDriver) jobHOTPVal(c *ctx, tag string, probe bool) job {
+	key := c.someKey()
+	if len(key) == 0 {
+		key = c.randBytes(10)
+	}
+	q := newRReq()
+	sec := c.restSecret(key)
+	q.Secret = rfStr(sec)
+	ctr := c.someCounter() >> 1
+	q.Counter = rfNum(ctr)
+	dsp := []string{"6", "8", "9", "10", ""}[c.rng.Intn(5)]
+	asp := []string{"SHA1", "SHA256", "SHA512", ""}[c.rng.Intn(4)]
+	if dsp != "" || c.rng.Intn(2) == 0 {
+		q.Digits = rfStr(dsp)
+	}
+	if asp != "" || c.rng.Intn(2) == 0 {
+		q.Algorithm = rfStr(asp)
+	}
+	skew := uint64(c.rng.Intn(11))
+	if c.rng.Intn(8) == 0 {
+		skew = skewsRefused[c.rng.Intn(len(skewsRefused))]
+	}
+	if skew != 0 || c.rng.Intn(2) == 0 {
+		q.Skew = rfNum(skew)
+	}
+	dist := 0
+	if skew <= 10 {
+		dist = c.rng.Intn(2*int(skew)+5) - int(skew) - 2
+	}
+	d0 := int(otp.DigitsFromStr(dsp))
+	a0 := int(otp.AlgorithmFromStr(asp))
+	code := refHOTP(key, ctr+uint64(int64(dist)), d0, a0)
+	if c.rng.Intn(6) == 0 {
+		code = c.edit(code, editKinds[c.rng.Intn(len(editKinds))])
+	}
+	if strings.TrimSpace(code) == "" || !validUTF8(code) {
+		code = "000000"
+	}
+	q.Code = rfStr(code)
+	return job{scn: tag, method: "POST", path: "/hotp/validate", cls: "typed", probe: probe, q: q, fill: func(ev *restEvent) {
+		if k, ok := trimKey(sec); ok && skew <= 10 {
+			ev.Orc = allAlgWindow(k, ctr, int(skew)+margin)
+		}
+	}}
+}
+
+func validUTF8(s string) bool {
+	for _, r := range s {
+		if r == 0xFFFD {
+			return false
+		}
+	}
+	return true
+}
+
+func (d *restDriver) jobTOTP(c *ctx, tag string, probe bool, validate bool) job {
+	key := c.someKey()
+	if len(key) == 0 {
+		key = c.randBytes(10)
+	}
+	q := newRReq()
+	sec := c.restSecret(key)
+	q.Secret = rfStr(sec)
+	explicit := c.rng.Intn(4) != 0
+	var ts int64
+	if explicit {
+		ts = 1 + c.rng.Int63n(1<<uint(8+c.rng.Intn(50)))
+		q.Timestamp = rfInt(ts)
+	} else if c.rng.Intn(2) == 0 {
+		q.Timestamp = rfInt([]int64{0, -5}[c.rng.Intn(2)]) // not positive: the server's clock is used
+	}
+	per := []uint64{0, 0, 1, 30, 60, 3600}[c.rng.Intn(6)]
+	if per != 0 || c.rng.Intn(2) == 0 {
+		q.Period = rfNum(per)
+	}
+	eff := per
+	if eff == 0 {
+		eff = 30
+	}
+	dsp := []string{"6", "8", "9", "10", "", "5"}[c.rng.Intn(6)]
+	asp := []string{"SHA1", "SHA256", "SHA512", "", "sha512"}[c.rng.Intn(5)]
+	if dsp != "" || c.rng.Intn(2) == 0 {
+		q.Digits = rfStr(dsp)
+	}
+	if asp != "" || c.rng.Intn(2) == 0 {
+		q.Algorithm = rfStr(asp)
+	}
+	path := "/totp/generate"
+	skew := uint64(0)
+	if validate {
+		path = "/totp/validate"
+		skew = uint64(c.rng.Intn(11))
+		if c.rng.Intn(8) == 0 {
+			skew = skewsRefused[c.rng.Intn(len(skewsRefused))]
+		}
+		if skew != 0 || c.rng.Intn(2) == 0 {
+			q.Skew = rfNum(skew)
+		}
+		base := ts
+		if !explicit {
+			base = time.Now().Unix()
+		}
+		dist := 0
+		if skew <= 10 {
+			dist = c.rng.Intn(2*int(skew)+5) - int(skew) - 2
+		}
+		step := uint64(base)/eff + uint64(int64(dist))
+		code := refHOTP(key, step, int(otp.DigitsFromStr(dsp)), int(otp.AlgorithmFromStr(asp)))
+		if c.rng.Intn(6) == 0 {
+			code = c.edit(code, editKinds[c.rng.Intn(len(editKinds))])
+		}
+		if strings.TrimSpace(code) == "" || !validUTF8(code) {
+			code = "000000"
+		}
+		q.Code = rfStr(code)
+	}
+	return job{scn: tag, method: "POST", path: path, cls: "typed", probe: probe, q: q, fill: func(ev *restEvent) {
+		k, ok := trimKey(sec)
+		w := 0
+		if validate && skew <= 10 {
+			w = int(skew) + margin
+		}
+		var o orcSet
+		add := func(step uint64) {
+			if ok {
+				for a := 0; a < 3; a++ {
+					o.counterWindow(a, k, step, w)
+				}
+			}
+		}
+		if explicit {
+			ev.Step0 = W64(uint64(ts) / eff)
+			add(uint64(ts) / eff)
+		} else if validate {
+			s0, s1 := uint64FromB(ev.T0)/eff, uint64FromB(ev.T1)/eff
+			ev.Step0, ev.Step1 = W64(s0), W64(s1)
+			add(s0)
+			add(s1)
+		} else if rt, isMap := ev.Resp["timestamp"].(RF); isMap && rt.P {
+			s0 := uint64FromB(rt.W) / eff
+			ev.Step0 = W64(s0)
+			add(s0)
+		}
+		ev.Orc = o.entries()
+	}}
+}
+
+func hexOf(b []byte) string { return fmt.Sprintf("%x", b) }
+
+func (d *restDriver) jobOCRA(c *ctx, tag string, probe bool, validate bool) job {
+	key := c.someKey()
+	if len(key) == 0 {
+		key = c.randBytes(10)
+	}
+	q := newRReq()
+	sec := c.someSpelling(key)
+	q.Secret = rfStr(sec)
+	var sa suiteArg
+	structured := c.rng.Intn(3) == 0 || len(d.suites) == 0
+	if structured {
+		cf := c.handBuilt(c.rng.Intn(32), c.rng.Intn(3), 4+c.rng.Intn(7), nil)
+		if c.rng.Intn(6) == 0 { // unusable structured suites
+			switch c.rng.Intn(3) {
+			case 0:
+				cf.Digits = []int{0, 3, 11}[c.rng.Intn(3)]
+			case 1:
+				cf.P, cf.PH = true, 0
+			default:
+				cf.T, cf.TS = true, 0
+			}
+		}
+		cf.Raw = B{}
+		q.Suite = RSuite{P: true, Hash: S([]string{"SHA1", "SHA256", "SHA512"}[cf.Hash]), Cfg: cf}
+		sa = cfgSuiteArg(cf)
+	} else {
+		name := d.suites[c.rng.Intn(len(d.suites))]
+		q.RawSuite = rfStr(name)
+		x, err := rawSuiteArg(name)
+		if err != nil {
+			x = cfgSuiteArg(Cfg{Raw: S(name)})
+		}
+		sa = x
+	}
+	in := c.admissibleInput(sa.su.Cfg, c.rng.Intn(8))
+	if c.rng.Intn(8) == 0 { // inadmissible input
+		in.Challenge = c.randBytes([]int{0, 3, 129}[c.rng.Intn(3)])
+	}
+	q.InputP = true
+	fields := [][]byte{in.Counter, in.Challenge, in.Password, in.SessionInfo, in.Timestamp}
+	for i, f := range fields {
+		if len(f) > 0 {
+			q.Hex[i] = rfStr(hexOf(f))
+		} else if c.rng.Intn(2) == 0 {
+			q.Hex[i] = rfStr("")
+		}
+	}
+	path := "/ocra/generate"
+	if validate {
+		path = "/ocra/validate"
+		g := doGenerateOCRA("probe", sec, sa, in)
+		code := string(g.Val)
+		if g.Kind != "value" || code == "" {
+			code = "000000"
+		}
+		if c.rng.Intn(3) == 0 {
+			code = c.edit(code, []string{"flip", "fliplast", "droplast", "append0", "leadplus"}[c.rng.Intn(5)])
+		}
+		if strings.TrimSpace(code) == "" {
+			code = "0"
+		}
+		q.Code = rfStr(code)
+	}
+	return job{scn: tag, method: "POST", path: path, cls: "typed", probe: probe, q: q, fill: func(ev *restEvent) {
+		ev.Orc = ocraOracle(sec, sa, in)
+		ev.SuCfg = sa.su.Cfg
+		ev.LibSuites = bsOf(d.suites)
+	}}
+}
+
+func bsOf(l []string) []B {
+	out := []B{}
+	for _, s := range l {
+		out = append(out, S(s))
+	}
+	return out
+}
+
+func (d *restDriver) jobSuites(tag string, probe bool) job {
+	return job{scn: tag, method: "GET", path: "/ocra/suites", cls: "typed", probe: probe, q: newRReq(), fill: func(ev *restEvent) { ev.LibSuites = bsOf(d.suites) }}
+}
+
+func (d *restDriver) jobSuite(c *ctx, tag, name string) job {
+	q := newRReq()
+	q.RawSuite = rfStr(name)
+	return job{scn: tag, method: "POST", path: "/ocra/suite", cls: "typed", q: q, fill: func(ev *restEvent) { ev.LibSuites = bsOf(d.suites) }}
+}
+
+var restTexts = []string{"My Company", "a b", "100%", "a/b", "x?y", "h#t", "a&b", "k=v", "p+q", "me@example.com", "Ünïcödé", "日本", "%41", "acct:sub", "plain", "Example"}
+
+func (d *restDriver) jobURL(c *ctx, tag string) job {
+	q := newRReq()
+	q.Type = rfStr([]string{"totp", "hotp", "totp", "hotp", "TOTP", "x"}[c.rng.Intn(6)])
+	q.Secret = rfStr(b32np(c.randBytes(10)))
+	iss := strings.ReplaceAll(restTexts[c.rng.Intn(len(restTexts))], ":", ";")
+	q.Issuer = rfStr(iss)
+	q.Account = rfStr(restTexts[c.rng.Intn(len(restTexts))])
+	if c.rng.Intn(2) == 0 {
+		q.Period = rfNum([]uint64{0, 30, 60, 1}[c.rng.Intn(4)])
+	}
+	if c.rng.Intn(2) == 0 {
+		q.Digits = rfStr(digitSpellings[c.rng.Intn(len(digitSpellings))])
+	}
+	if c.rng.Intn(2) == 0 {
+		q.Algorithm = rfStr(algSpellings[c.rng.Intn(len(algSpellings))])
+	}
+	if c.rng.Intn(10) == 0 {
+		switch c.rng.Intn(3) {
+		case 0:
+			q.Issuer = rfStr("  ")
+		case 1:
+			q.Account = rfAbsent()
+		default:
+			q.Secret = rfStr("")
+		}
+	}
+	return job{scn: tag, method: "POST", path: "/otp/url", cls: "typed", q: q}
+}
+
+func (d *restDriver) jobSecret(c *ctx, tag string) job {
+	q := newRReq()
+	query := ""
+	if c.rng.Intn(4) != 0 {
+		a := algSpellings[c.rng.Intn(len(algSpellings))]
+		q.QAlg = rfStr(a)
+		query = "algorithm=" + urlQueryEscape(a)
+	}
+	return job{scn: tag, method: "GET", path: "/otp/secret", query: query, cls: "typed", q: q}
+}
+
+func urlQueryEscape(s string) string {
+	var sb strings.Builder
+	for i := 0; i < len(s); i++ {
+		ch := s[i]
+		if (ch >= 'a' && ch <= 'z') || (ch >= 'A' && ch <= 'Z') || (ch >= '0' && ch <= '9') {
+			sb.WriteByte(ch)
+		} else {
+			sb.WriteString(fmt.Sprintf("%%%02X", ch))
+		}
+	}
+	return sb.String()
+}
+
+func (d *restDriver) randomTyped(c *ctx, tag string, probe bool) job {
+	switch c.rng.Intn(12) {
+	case 0, 1:
+		return d.jobHOTPGen(c, tag, probe)
+	case 2, 3:
+		return d.jobHOTPVal(c, tag, probe)
+	case 4:
+		return d.jobTOTP(c, tag, probe, false)
+	case 5, 6:
+		return d.jobTOTP(c, tag, probe, true)
+	case 7:
+		return d.jobOCRA(c, tag, probe, false)
+	case 8:
+		return d.jobOCRA(c, tag, probe, true)
+	case 9:
+		j := d.jobURL(c, tag)
+		j.probe = probe
+		return j
+	case 10:
+		j := d.jobSecret(c, tag)
+		j.probe = probe
+		return j
+	}
+	return d.jobSuites(tag, probe)
+}
+
+// ---------------- C18 ----------------
+func restScenC18(d *restDriver, c *ctx) {
+	seq := newClient(1, true, d.deadline)
+	n := c.n(250, 6000)
+	// sequential, one kept-alive connection: every endpoint
+	for i := 0; i < n; i++ {
+		d.do(seq, d.randomTyped(c, fmt.Sprintf("C18/seq/%d", i), false))
+	}
+	// every registered suite: description and one generate -> validate chain
+	for i, name := range d.suites {
+		d.do(seq, d.jobSuite(c, fmt.Sprintf("C18/suite/%d", i), name))
+	}
+	for _, name := range []string{"", " ", "OCRA-1:HOTP-SHA1-6:QN99", "OCRA-1:HOTP-SHA1-6:QN08-T1M", "nope"} {
+		d.do(seq, d.jobSuite(c, fmt.Sprintf("C18/suite/unknown/%q", name), name))
+	}
+	d.do(seq, d.jobSuites("C18/suites", false))
+	// generate -> validate chains: the code one endpoint generates validates at the matching endpoint
+	for i := 0; i < c.n(40, 600); i++ {
+		key := c.randBytes(20)
+		sec := b32(key)
+		q := newRReq()
+		q.Secret = rfStr(sec)
+		ctr := c.someCounter() >> 1
+		q.Counter = rfNum(ctr)
+		dsp := []string{"6", "8", "9", "10"}[c.rng.Intn(4)]
+		asp := []string{"SHA1", "SHA256", "SHA512"}[c.rng.Intn(3)]
+		q.Digits, q.Algorithm = rfStr(dsp), rfStr(asp)
+		g := d.do(seq, job{scn: fmt.Sprintf("C18/chain/h/%d/gen", i), method: "POST", path: "/hotp/generate", cls: "typed", q: q, fill: func(ev *restEvent) { ev.Orc = allAlgWindow(key, ctr, 0) }})
+		if code, ok := g.Resp["code"].(RF); ok && code.P {
+			q2 := q
+			q2.Code = rfStr(string(code.S))
+			q2.Skew = rfNum(uint64(c.rng.Intn(3)))
+			d.do(seq, job{scn: fmt.Sprintf("C18/chain/h/%d/val", i), method: "POST", path: "/hotp/validate", cls: "typed", q: q2, fill: func(ev *restEvent) { ev.Orc = allAlgWindow(key, ctr, 2+margin) }})
+		}
+		// TOTP at an explicit instant
+		ts := 1 + c.rng.Int63n(1<<40)
+		qt := newRReq()
+		qt.Secret, qt.Timestamp, qt.Digits, qt.Algorithm = rfStr(sec), rfInt(ts), rfStr(dsp), rfStr(asp)
+		per := []uint64{30, 60}[c.rng.Intn(2)]
+		qt.Period = rfNum(per)
+		step := uint64(ts) / per
+		gt := d.do(seq, job{scn: fmt.Sprintf("C18/chain/t/%d/gen", i), method: "POST", path: "/totp/generate", cls: "typed", q: qt, fill: func(ev *restEvent) {
+			ev.Step0 = W64(step)
+			ev.Orc = allAlgWindow(key, step, 0)
+		}})
+		if code, ok := gt.Resp["code"].(RF); ok && code.P {
+			q2 := qt
+			q2.Code = rfStr(string(code.S))
+			d.do(seq, job{scn: fmt.Sprintf("C18/chain/t/%d/val", i), method: "POST", path: "/totp/validate", cls: "typed", q: q2, fill: func(ev *restEvent) {
+				ev.Step0 = W64(step)
+				ev.Orc = allAlgWindow(key, step, margin)
+			}})
+		}
+	}
+	// concurrently: 4 kept-alive and 4 fresh-connection clients
+	var jobs []job
+	for i := 0; i < c.n(300, 8000); i++ {
+		jobs = append(jobs, d.randomTyped(c, fmt.Sprintf("C18/conc/%d", i), false))
+	}
+	d.runConcurrent(jobs, 8)
+}
+
+func (d *restDriver) runConcurrent(jobs []job, clients int) {
+	var wg sync.WaitGroup
+	ch := make(chan job, len(jobs))
+	for _, j := range jobs {
+		ch <- j
+	}
+	close(ch)
+	for k := 0; k < clients; k++ {
+		wg.Add(1)
+		cl := newClient(10+k, k%2 == 0, d.deadline)
+		go func() {
+			defer wg.Done()
+			for j := range ch {
+				d.do(cl, j)
+			}
+		}()
+	}
+	wg.Wait()
+}
+
+// ---------------- C19 ----------------
+var allPaths = []string{"/totp/generate", "/totp/validate", "/hotp/generate", "/hotp/validate", "/ocra/generate", "/ocra/validate", "/ocra/suite", "/otp/url", "/ocra/suites", "/otp/secret", "/"}
+var allMethods = []string{"GET", "POST", "PUT", "DELETE", "PATCH", "HEAD", "OPTIONS"}
+
+func restScenC19(d *restDriver, c *ctx) {
+	cl := newClient(1, true, d.deadline)
+	id := 0
+	probe := func() {
+		id++
+		d.do(cl, d.randomTyped(c, fmt.Sprintf("C19/probe/%d", id), true))
+	}
+	bad := func(path, cls string, body []byte) {
+		id++
+		d.do(cl, job{scn: fmt.Sprintf("C19/%s/%d", cls, id), method: "POST", path: path, cls: cls, q: newRReq(), raw: body})
+	}
+	post := allPaths[:8]
+	// syntactically broken JSON
+	broken := []string{"", "{", "}", "[", "nul", "{\"secret\":", "{\"secret\":\"A\"", "{secret:1}", "{\"secret\":\"A\",}", "\x00\x01", "{\"a\":\"\\uZZZZ\"}", "{\"secret\":\"A\"}}", "'x'", "{\"secret\":\"\xff\"", strings.Repeat("[", 5000), strings.Repeat("{\"a\":", 3000)}
+	for _, p := range post {
+		for _, b := range broken {
+			if c.quick() && c.rng.Intn(2) == 0 {
+				continue
+			}
+			bad(p, "badjson", []byte(b))
+		}
+		probe()
+	}
+	// every field with every JSON type (wrong ones)
+	fields := map[string]string{"secret": "s", "code": "s", "timestamp": "n", "counter": "n", "digits": "s", "period": "n", "skew": "n", "algorithm": "s", "raw_suite": "s", "suite": "o", "input": "o", "type": "s", "issuer": "s", "account_name": "s"}
+	vals := map[string]string{"s": `"x"`, "n": `5`, "b": `true`, "o": `{"a":1}`, "a": `[1]`, "f": `1.5`, "neg": `-1`, "big": `184467440737095516160`, "exp": `1e400`}
+	fieldNames := sortedKeys(fields)
+	kindNames := sortedKeys(vals)
+	for _, p := range post {
+		for _, f := range fieldNames {
+			want := fields[f]
+			for _, kind := range kindNames {
+				lit := vals[kind]
+				okFor := kind == want || (want == "n" && false)
+				if okFor {
+					continue
+				}
+				if (want == "s" && (kind == "s")) || (want == "o" && kind == "o") {
+					continue
+				}
+				if want == "n" && kind == "n" {
+					continue
+				}
+				if c.quick() && c.rng.Intn(6) != 0 {
+					continue
+				}
+				// a wrong-typed value for a field the endpoint decodes is a decode error; fields the endpoint does
+				// not know are ignored by the decoder, so only fields of the endpoint's request type are used
+				if !endpointHas(p, f) {
+					continue
+				}
+				bad(p, "wrongtype", []byte(fmt.Sprintf(`{"secret":"JBSWY3DPEHPK3PXP","code":"123456",%q:%s}`, f, lit)))
+			}
+		}
+		probe()
+	}
+	// numbers at and beyond 64-bit limits, extremes of skew / period / counter / timestamp (well typed: answered as C18 says)
+	for _, sk := range []uint64{10, 11, 1000, 1000000, 1000000000, 1 << 40, 1 << 63, 1<<64 - 1} {
+		for _, path := range []string{"/totp/validate", "/hotp/validate"} {
+			id++
+			key := c.randBytes(20)
+			q := newRReq()
+			q.Secret, q.Code, q.Skew = rfStr(b32(key)), rfStr("123456"), rfNum(sk)
+			q.Counter, q.Timestamp = rfNum(5), rfInt(1700000000)
+			skk := sk
+			d.do(cl, job{scn: fmt.Sprintf("C19/skew/%d/%s", sk, path), method: "POST", path: path, cls: "typed", probe: true, q: q, fill: func(ev *restEvent) {
+				ev.Step0 = W64(1700000000 / 30)
+				if skk <= 10 {
+					ev.Orc = append(allAlgWindow(key, 5, int(skk)+margin), allAlgWindow(key, 1700000000/30, int(skk)+margin)...)
+				}
+			}})
+		}
+		probe()
+	}
+	for _, lit := range []string{"18446744073709551616", "-1", "1e30", "99999999999999999999999999", "0.5"} {
+		for _, f := range []string{"counter", "timestamp", "period", "skew"} {
+			path := "/totp/validate"
+			if f == "counter" {
+				path = "/hotp/validate"
+			}
+			if f == "timestamp" && lit == "-1" {
+				continue // a negative timestamp is well typed (int64): the clock is used
+			}
+			bad(path, "wrongtype", []byte(fmt.Sprintf(`{"secret":"JBSWY3DPEHPK3PXP","code":"123456",%q:%s}`, f, lit)))
+		}
+	}
+	probe()
+	// empty / white-space / huge strings up to the body limit
+	for _, p := range post {
+		for _, s := range []string{"", " ", "\t\n", strings.Repeat("A", 100001), strings.Repeat("A", 900001)} {
+			id++
+			q := newRReq()
+			short := s
+			if len(short) > 1000 {
+				short = "x" // keep the whole body below the 1 MiB limit: one huge field at a time
+			}
+			q.Secret, q.Code = rfStrLong(s), rfStr(short)
+			q.RawSuite, q.Type, q.Issuer, q.Account = rfStr(short), rfStr(short), rfStr(short), rfStr(short)
+			if len(s) > 1000 && id%2 == 0 {
+				q.Secret, q.Code, q.RawSuite = rfStr("JBSWY3DPEHPK3PXP"), rfStrLong(s), rfStr(short)
+			}
+			cls := "typed"
+			d.do(cl, job{scn: fmt.Sprintf("C19/strings/%d", id), method: "POST", path: p, cls: cls, probe: true, q: q, fill: func(ev *restEvent) {
+				ev.LibSuites = bsOf(d.suites)
+				if k, ok := trimKey(string(q.Secret.S)); ok {
+					s0, s1 := uint64FromB(ev.T0)/30, uint64FromB(ev.T1)/30
+					ev.Step0, ev.Step1 = W64(s0), W64(s1)
+					ev.Orc = append(append(allAlgWindow(k, 0, margin), allAlgWindow(k, s0, margin)...), allAlgWindow(k, s1, margin)...)
+				}
+			}})
+		}
+		// beyond the 1 MiB body limit
+		bad(p, "overlimit", []byte(`{"secret":"`+strings.Repeat("A", 1100000)+`"}`))
+		probe()
+	}
+	// all methods x all paths, unknown paths
+	for _, p := range append(append([]string{}, allPaths...), "/nope", "/totp", "/totp/generatex", "/TOTP/generate", "/hotp/", "/docs", "/docs/index.html", "/docs/doc.json") {
+		for _, m := range allMethods {
+			id++
+			cls := "typed"
+			if strings.HasPrefix(p, "/docs") {
+				cls = "docs"
+			}
+			q := newRReq()
+			var raw []byte
+			if m != "GET" && m != "HEAD" {
+				raw = []byte(`{"secret":"JBSWY3DPEHPK3PXP","code":"123456"}`)
+			}
+			okMethod := (m == "POST" && isIn(p, allPaths[:8])) || (m == "GET" && isIn(p, allPaths[8:]))
+			if okMethod {
+				continue // the well-formed combinations are exercised by the probes
+			}
+			j := job{scn: fmt.Sprintf("C19/route/%s%s", m, p), method: m, path: p, cls: cls, probe: true, q: q, raw: raw}
+			if m == "HEAD" && cls != "docs" {
+				j.cls = "head"
+			}
+			d.do(cl, j)
+		}
+		probe()
+	}
+	// contradictory / unknown suites
+	for _, body := range []string{
+		`{"secret":"JBSWY3DPEHPK3PXP","raw_suite":"OCRA-1:HOTP-SHA1-6:QN99","input":{}}`,
+		`{"secret":"JBSWY3DPEHPK3PXP","raw_suite":"   ","suite":{"hash_function":"SHA1","code_digits":6,"challenge_format":1,"include_challenge":true},"input":{"challenge_hex":"3132333435363738"}}`,
+		`{"secret":"JBSWY3DPEHPK3PXP","raw_suite":"nope","suite":{"hash_function":"SHA1","code_digits":6},"input":{}}`,
+		`{"secret":"JBSWY3DPEHPK3PXP","suite":{"hash_function":"SHA1","code_digits":99},"input":{}}`,
+		`{"secret":"JBSWY3DPEHPK3PXP","raw_suite":"OCRA-1:HOTP-SHA1-6:QN08"}`,
+		`{"secret":"JBSWY3DPEHPK3PXP","raw_suite":"OCRA-1:HOTP-SHA1-6:QN08","input":null}`,
+		`{"secret":"JBSWY3DPEHPK3PXP","raw_suite":"OCRA-1:HOTP-SHA1-6:QN08","input":{"challenge_hex":"zz"}}`,
+		`{"secret":"JBSWY3DPEHPK3PXP","raw_suite":"OCRA-1:HOTP-SHA1-6:QN08","input":{"challenge_hex":"31"}}`,
+	} {
+		bad("/ocra/generate", "refused", []byte(body))
+		bad("/ocra/validate", "refused", []byte(strings.Replace(body, `{"secret"`, `{"code":"123456","secret"`, 1)))
+	}
+	probe()
+	// random fault sequences interleaved with probes, then a concurrent burst
+	for i := 0; i < c.n(150, 4000); i++ {
+		p := post[c.rng.Intn(len(post))]
+		switch c.rng.Intn(3) {
+		case 0:
+			bad(p, "badjson", c.randBytes(c.rng.Intn(200)))
+		case 1:
+			bad(p, "badjson", []byte(broken[c.rng.Intn(len(broken))]))
+		default:
+			probe()
+		}
+	}
+	var jobs []job
+	for i := 0; i < c.n(200, 4000); i++ {
+		if i%3 == 0 {
+			jobs = append(jobs, job{scn: fmt.Sprintf("C19/concbad/%d", i), method: "POST", path: post[c.rng.Intn(len(post))], cls: "badjson", q: newRReq(), raw: []byte(broken[c.rng.Intn(len(broken))])})
+		} else {
+			jobs = append(jobs, d.randomTyped(c, fmt.Sprintf("C19/concprobe/%d", i), true))
+		}
+	}
+	d.runConcurrent(jobs, 8)
+	// the process must still be there and answering
+	probe()
+	ev := restEvent{Scn: "C19/alive", Path: "/", Method: "GET", Cls: "alive", Probe: d.alive(), Req: newRReq().asMap(), Orc: []Mac{}, LibSuites: []B{},
+		Step0: W64(0), Step1: W64(0), SuCfg: Cfg{Raw: B{}}, T0: W64(0), T1: W64(0)}
+	ev.Resp = d.send(cl, "x", "GET", "/", "", "typed", true, newRReq(), nil).Resp
+	d.record(ev)
+}
+
+func sortedKeys(m map[string]string) []string {
+	var ks []string
+	for k := range m {
+		ks = append(ks, k)
+	}
+	sort.Strings(ks)
+	return ks
+}
+
+func isIn(s string, l []string) bool {
+	for _, x := range l {
+		if x == s {
+			return true
+		}
+	}
+	return false
+}
+
+func endpointHas(path, field string) bool {
+	gen := map[string]bool{"secret": true, "timestamp": true, "counter": true, "digits": true, "period": true, "algorithm": true}
+	val := map[string]bool{"secret": true, "timestamp": true, "counter": true, "code": true, "digits": true, "period": true, "skew": true, "algorithm": true}
+	switch path {
+	case "/totp/generate", "/hotp/generate":
+		return gen[field]
+	case "/totp/validate", "/hotp/validate":
+		return val[field]
+	case "/ocra/generate":
+		return field == "secret" || field == "raw_suite" || field == "suite" || field == "input"
+	case "/ocra/validate":
+		return field == "secret" || field == "code" || field == "raw_suite" || field == "suite" || field == "input"
+	case "/ocra/suite":
+		return field == "raw_suite"
+	case "/otp/url":
+		return field == "type" || field == "secret" || field == "issuer" || field == "account_name" || field == "period" || field == "digits" || field == "algorithm"
+	}
+	return false
+}
